@@ -1174,3 +1174,614 @@ def c06_cases(rng, n):
                 vs.append(Variant('V%d' % j, sh, fs, va))
             out.append(Item('enum', 'E', 'named', rng.choice(['', '<T>']), attrs, vs, {'gen': 'c06_enum'}))
     return out
+
+
+# ---------------------------------------------------------------------------------------------
+# C14: repeat / skip_repeat / stop_repeat and their written-out forms
+# ---------------------------------------------------------------------------------------------
+REPEAT_CATS = ['map', 'child', 'parent', 'ghost', 'type_hint']
+
+
+def attr_category(a):
+    if a.name in MEMBER_MAP_NAMES:
+        return 'map'
+    if a.name in GHOSTS:
+        return 'ghost'
+    if a.name in ('child', 'parent', 'type_hint'):
+        return a.name
+    return None
+
+
+class RMember:
+    """one member of a repeat scenario: its own instructions and its repeat markers"""
+    def __init__(self, own, repeat=None, permeate=False, skip=False, stop=False):
+        self.own, self.repeat, self.permeate, self.skip, self.stop = own, repeat, permeate, skip, stop
+        # repeat: None (no marker) | [] (all categories) | [cats]
+
+    def marker_attrs(self, rng=None):
+        out = []
+        if self.stop:
+            out.append(Attr('stop_repeat'))
+        if self.repeat is not None:
+            args = ', '.join(self.repeat)
+            if self.permeate:
+                args = 'permeate()' + (', ' + args if args else '')
+            out.append(Attr('repeat', args if (args or self.permeate) else None))
+        if self.skip:
+            out.append(Attr('skip_repeat'))
+        return out
+
+
+def thread_members(members, active=None):
+    """written-out instructions for a member sequence (the rule of the property statement).
+    returns (list of instruction lists, active block at the end, ok?)"""
+    out = []
+    ok = True
+    for m in members:
+        if m.stop:
+            active = None
+        if m.repeat is not None:
+            if active is not None:
+                ok = False
+            cats = m.repeat or REPEAT_CATS
+            active = ([a for a in m.own if attr_category(a) in cats], m.permeate)
+            out.append(list(m.own))
+        elif active is not None and not m.skip:
+            out.append(list(m.own) + [a.clone() for a in active[0]])
+        else:
+            out.append(list(m.own))
+    return out, active, ok
+
+
+def rand_rmember(rng, named, in_variant=False, is_variant=False, allow_permeate=False):
+    own = []
+    for _ in range(rng.choice([0, 1, 1, 2])):
+        r = rng.random()
+        m = ('n%d' % rng.randrange(5)) if (named or is_variant) else str(rng.randrange(5))
+        if is_variant:
+            if r < 0.5:
+                own.append(Attr(rng.choice(['map', 'from', 'into', 'owned_into']), rng.choice(['W%d' % rng.randrange(4), '{ mk(~) }'])))
+            elif r < 0.75:
+                own.append(Attr('type_hint', rng.choice(['as {}', 'as ()'])))
+            else:
+                own.append(Attr('ghost', '{ dflt() }'))
+        else:
+            if r < 0.55:
+                own.append(Attr(rng.choice(MEMBER_MAP_NAMES), rng.choice([m, '~ + 1', '%s, ~.c()' % m])))
+            elif r < 0.7:
+                nm = rng.choice(GHOSTS)
+                own.append(Attr(nm, '{ 0 }', o2o=(nm != 'ghost')))
+            elif r < 0.85 and not in_variant:
+                own.append(Attr('child', rng.choice(['p', 'p.q'])))
+            elif not in_variant:
+                own.append(Attr('parent', rng.choice(['x, y', '[map(z)] x'])))
+    r = rng.random()
+    rep = None
+    if r < 0.25:
+        cats = [] if rng.random() < 0.5 else rng.sample(REPEAT_CATS, rng.choice([1, 2]))
+        rep = cats
+    return RMember(own, rep, permeate=(rep is not None and allow_permeate and rng.random() < 0.5),
+                   skip=(rep is None and rng.random() < 0.15), stop=rng.random() < 0.15)
+
+
+def c14_member_cases(rng, n):
+    """returns list of (item with markers, written-out item)"""
+    out = []
+    for i in range(n):
+        r = rng.random()
+        tr = [trait_attr(rng.choice(['map', 'into', 'from', 'owned_into', 'from_owned', 'into_existing', 'try_map']), 'A', '', 'Er')]
+        if rng.random() < 0.3:
+            tr.append(trait_attr(rng.choice(['map', 'try_into']), 'B', '', 'Er'))
+        if r < 0.55:
+            named = rng.random() < 0.7
+            ms = [rand_rmember(rng, named) for _ in range(rng.randrange(2, 7))]
+            written, _, ok = thread_members(ms)
+            if not ok:
+                continue
+            extra = [Attr('child_parents', 'p: P, p.q: Q')]
+            def mk(instr_lists, with_markers):
+                fields = []
+                for j, (m, il) in enumerate(zip(ms, instr_lists)):
+                    attrs = [a.clone() for a in il]
+                    if with_markers:
+                        mk_ = m.marker_attrs()
+                        pos = rng.randrange(len(attrs) + 1) if attrs else 0
+                        attrs = attrs[:pos] + mk_ + attrs[pos:]
+                    fields.append(Field(('a%d' % j) if named else None, 'i32', attrs))
+                return Item('struct', 'S', 'named' if named else 'tuple', '', [a.clone() for a in tr] + extra, fields, {'gen': 'c14_fields'})
+            st = rng.getstate()
+            a = mk([m.own for m in ms], True)
+            out.append((a, mk(written, False)))
+        elif r < 0.75:
+            # variants
+            ms = [rand_rmember(rng, True, is_variant=True) for _ in range(rng.randrange(2, 6))]
+            written, _, ok = thread_members(ms)
+            if not ok:
+                continue
+            etr = [a for a in tr if 'existing' not in a.name] or [trait_attr('map', 'A')]
+            def mk(instr_lists, with_markers):
+                vs = []
+                for j, (m, il) in enumerate(zip(ms, instr_lists)):
+                    attrs = [a.clone() for a in il] + (m.marker_attrs() if with_markers else [])
+                    vs.append(Variant('V%d' % j, 'unit', [], attrs))
+                return Item('enum', 'E', 'named', '', [a.clone() for a in etr], vs, {'gen': 'c14_variants'})
+            out.append((mk([m.own for m in ms], True), mk(written, False)))
+        else:
+            # variant fields, with and without permeation
+            shapes = [rng.choice(['tuple', 'named']) for _ in range(rng.randrange(2, 5))]
+            allm = []
+            active = None
+            ok_all = True
+            per_variant = []
+            for sh in shapes:
+                ms = [rand_rmember(rng, sh == 'named', in_variant=True, allow_permeate=True) for _ in range(rng.randrange(1, 4))]
+                written, active, ok = thread_members(ms, active)
+                ok_all = ok_all and ok
+                if active is not None and not active[1]:
+                    active = None
+                per_variant.append((sh, ms, written))
+            if not ok_all:
+                continue
+            etr = [a for a in tr if 'existing' not in a.name] or [trait_attr('map', 'A')]
+            def mk(with_markers):
+                vs = []
+                for j, (sh, ms, written) in enumerate(per_variant):
+                    fs = []
+                    for q, m in enumerate(ms):
+                        il = m.own if with_markers else written[q]
+                        attrs = [a.clone() for a in il] + (m.marker_attrs() if with_markers else [])
+                        fs.append(Field(('x%d' % q) if sh == 'named' else None, 'i32', attrs))
+                    vs.append(Variant('V%d' % j, sh, fs, []))
+                return Item('enum', 'E', 'named', '', [a.clone() for a in etr], vs, {'gen': 'c14_vfields'})
+            out.append((mk(True), mk(False)))
+    return out
+
+
+class TSpec:
+    """a trait instruction with structured parameters"""
+    def __init__(self, name, cp, vars_=None, tail=None, repeat=None, skip=False, stop=False, attribute=None):
+        self.name, self.cp, self.vars, self.tail, self.repeat, self.skip, self.stop, self.attribute = name, cp, vars_, tail, repeat, skip, stop, attribute
+        # tail: None | ('update', expr) | ('quick_return', expr) | ('default_case', expr)
+
+    def attr(self, markers=True):
+        ps = []
+        if markers and self.stop:
+            ps.append('stop_repeat')
+        if markers and self.skip:
+            ps.append('skip_repeat')
+        if markers and self.repeat is not None:
+            ps.append('repeat(%s)' % ', '.join(self.repeat))
+        if self.vars:
+            ps.append('vars(%s)' % self.vars)
+        if self.attribute:
+            ps.append('attribute(%s)' % self.attribute)
+        if self.tail:
+            kw = {'update': '..', 'quick_return': 'return ', 'default_case': '_ '}[self.tail[0]]
+            ps.append(kw + self.tail[1])
+        return trait_attr(self.name, self.cp, '', 'Er', ', '.join(ps))
+
+
+TRAIT_CATS = ['vars', 'update', 'quick_return', 'default_case']
+
+
+def thread_traits(specs):
+    """written-out specs (rule of the property statement); returns (list, ok?)"""
+    state = {}
+    out = []
+    ok = True
+    for s in specs:
+        if s.stop:
+            state.pop(s.name, None)
+        t = TSpec(s.name, s.cp, s.vars, s.tail, None, False, False, s.attribute)
+        if s.repeat is not None:
+            if s.name in state:
+                ok = False
+            cats = s.repeat or TRAIT_CATS
+            state[s.name] = (s, cats)
+        elif s.name in state and not s.skip:
+            src, cats = state[s.name]
+            # a later instruction that sets a selected parameter itself is a documented conflict ("... will be overriden"),
+            # whether or not the repeating instruction carries that parameter: outside the equivalence
+            if 'vars' in cats:
+                if t.vars:
+                    ok = False
+                elif src.vars:
+                    t.vars = src.vars
+            if t.tail and t.tail[0] in cats:
+                ok = False
+            if src.tail and src.tail[0] in cats:
+                if t.tail:
+                    ok = False      # a second tail parameter cannot be written out
+                t.tail = src.tail
+        out.append(t)
+    return out, ok
+
+
+def c14_trait_cases(rng, n):
+    out = []
+    names_pool = [['owned_into', 'owned_try_into'], ['into', 'try_into', 'ref_try_into'], ['map', 'try_map'], ['from_owned', 'owned_try_into'],
+                  ['map_owned', 'try_map_owned', 'try_from_owned'], ['from', 'into'], ['owned_into', 'ref_into', 'from_owned']]
+    for i in range(n):
+        enum = rng.random() < 0.3
+        names = rng.choice(names_pool)
+        cps = ['A', 'B', 'C', 'D', 'F']
+        specs = []
+        used = set()
+        for j in range(rng.randrange(2, 6)):
+            nm = rng.choice(names)
+            cp = rng.choice(cps)
+            ks = set((k, cp) for k in kinds_of(nm))
+            if ks & used:
+                continue
+            used |= ks
+            r = rng.random()
+            rep = None
+            if r < 0.35:
+                rep = [] if rng.random() < 0.5 else rng.sample(TRAIT_CATS, rng.choice([1, 2]))
+            tail = None
+            q = rng.random()
+            if q < 0.25:
+                tail = ('update', rng.choice(['Default::default()', '{ base(@) }']))
+            elif q < 0.4:
+                tail = ('quick_return', rng.choice(['mk(@)', '{ @.conv() }']))
+            elif q < 0.55 and enum:
+                tail = ('default_case', rng.choice(['{ panic!() }', '{ dflt() }']))
+            specs.append(TSpec(nm, cp, vars_=('k%d: { %d }' % (j, j)) if rng.random() < 0.4 else None, tail=tail, repeat=rep,
+                               skip=(rep is None and rng.random() < 0.2), stop=rng.random() < 0.2,
+                               attribute=('inline' if rng.random() < 0.15 else None)))
+        if len(specs) < 2:
+            continue
+        written, ok = thread_traits(specs)
+        if not ok:
+            continue
+        def mk(sp, markers):
+            attrs = [s.attr(markers) for s in sp]
+            if enum:
+                return Item('enum', 'E', 'named', '', attrs, [Variant('V', 'unit', [], [Attr('literal', '1')] if rng.random() < 0 else []), Variant('W', 'tuple', [Field(None, 'i32')])],
+                            {'gen': 'c14_trait_enum'})
+            return Item('struct', 'S', 'named', '', attrs, [Field('a', 'i32'), Field('b', 'i16', [Attr('map', 'bb')])], {'gen': 'c14_trait_struct'})
+        out.append((mk(specs, True), mk(written, False)))
+    return out
+
+
+# ---------------------------------------------------------------------------------------------
+# C15: valid bases and the documented misuse classes injected into them
+# ---------------------------------------------------------------------------------------------
+def c15_bases(rng, n):
+    out = []
+    for i in range(n):
+        r = rng.random()
+        cps = rng.sample(['A', 'B', 'x::C'], rng.choice([1, 1, 2]))
+        if r < 0.45:
+            names = ['map', 'into', 'from', 'owned_into', 'ref_into', 'from_owned', 'from_ref', 'into_existing', 'try_map', 'try_into', 'try_from', 'owned_try_into']
+            attrs = [trait_attr(rng.choice(names), cp, '', 'Er') for cp in cps]
+            fields = [Field('a%d' % j, 'i32', [Attr('map', 'n%d' % j)] if rng.random() < 0.4 else []) for j in range(rng.randrange(1, 5))]
+            out.append(Item('struct', 'S', 'named', '', attrs, fields, {'gen': 'c15_base', 'kind': 'struct_named'}))
+        elif r < 0.7:
+            names = ['map', 'into', 'from', 'owned_into', 'from_owned', 'into_existing', 'try_map']
+            attrs = [trait_attr(rng.choice(names), cp, '', 'Er') for cp in cps]
+            fields = [Field(None, 'i32', []) for j in range(rng.randrange(1, 4))]
+            out.append(Item('struct', 'S', 'tuple', '', attrs, fields, {'gen': 'c15_base', 'kind': 'struct_tuple'}))
+        else:
+            names = ['map', 'into', 'from', 'owned_into', 'from_owned', 'try_map', 'try_from']
+            attrs = [trait_attr(rng.choice(names), cp, '', 'Er') for cp in cps]
+            vs = []
+            for j in range(rng.randrange(1, 4)):
+                sh = rng.choice(['unit', 'tuple', 'named'])
+                fs = [] if sh == 'unit' else [Field('x%d' % q if sh == 'named' else None, 'i32') for q in range(rng.randrange(1, 3))]
+                vs.append(Variant('V%d' % j, sh, fs, [Attr('map', 'W%d' % j)] if rng.random() < 0.3 else []))
+            out.append(Item('enum', 'E', 'named', '', attrs, vs, {'gen': 'c15_base', 'kind': 'enum'}))
+    return out
+
+
+def _trait_attrs(it):
+    return [a for a in it.attrs if isinstance(a, Attr) and a.name in TRAIT_NAMES and hasattr(a, 'cp')]
+
+
+def _members(it):
+    """every member-level attr list with a tag: ('field'|'variant'|'vfield', list)"""
+    for m in it.members:
+        if isinstance(m, Variant):
+            yield 'variant', m
+            for f in m.fields:
+                yield 'vfield', f
+        else:
+            yield 'field', m
+
+
+def _has_kind(it, pred):
+    return [a for a in _trait_attrs(it) if any(pred(k) for k, _ in kinds_of(a.name))]
+
+
+FROMK = lambda k: k.startswith('from')
+INTOK = lambda k: k in ('owned_into', 'ref_into')
+NONFROM = lambda k: not k.startswith('from')
+
+
+def c15_injectors():
+    """each: f(item, rng) -> (item', regex, class) or None when not applicable; item is a fresh clone"""
+    inj = []
+
+    def add(cls):
+        def deco(f):
+            inj.append((cls, f.__name__, f))
+            return f
+        return deco
+
+    @add(1)
+    def no_trait_instruction(it, rng):
+        it.attrs = [a for a in it.attrs if a not in _trait_attrs(it)]
+        return it, r'At least one trait instruction is expected\.'
+
+    @add(2)
+    def duplicate_instruction(it, rng):
+        a = rng.choice(_trait_attrs(it))
+        it.attrs.insert(rng.randrange(len(it.attrs) + 1), trait_attr(a.name, a.cp, (' ' + a.hint) if a.hint else '', a.err or 'Er'))
+        return it, r'Ident here must be unique\.'
+
+    @add(3)
+    def missing_error_type(it, rng):
+        fs = [a for a in _trait_attrs(it) if is_fallible(a.name)]
+        if not fs:
+            a = rng.choice(_trait_attrs(it))
+            if try_name(a.name) not in TRAIT_NAMES:
+                return None
+            a.name = try_name(a.name)
+        else:
+            a = rng.choice(fs)
+        a.args = a.cp + a.hint
+        a.err = None
+        return it, r'Error type should be specified for fallible instruction\.'
+
+    @add(3)
+    def superfluous_error_type(it, rng):
+        fs = [a for a in _trait_attrs(it) if not is_fallible(a.name)]
+        if not fs:
+            return None
+        a = rng.choice(fs)
+        a.args = a.cp + a.hint + ', Er'
+        return it, r'Error type should not be specified for infallible instruction\.'
+
+    @add(4)
+    def unknown_counterpart_member(it, rng):
+        tag, m = rng.choice(list(_members(it)))
+        it.pos = tag
+        m.attrs.insert(rng.randrange(len(m.attrs) + 1), Attr(rng.choice(['map', 'into', 'from', 'ghost']), 'zz' if tag != 'x' else '', ded='Zzz'))
+        if m.attrs and m.attrs[0].name == 'ghost':
+            pass
+        return it, r"Type 'Zzz' doesn't match any type specified in trait instructions\."
+
+    @add(4)
+    def unknown_counterpart_type_level(it, rng):
+        nm = rng.choice(['ghosts', 'where_clause', 'child_parents'] if it.kind == 'struct' else ['ghosts', 'where_clause'])
+        args = {'ghosts': 'gx: { 1 }' if it.kind == 'struct' else 'Gx: { E::V0 }', 'where_clause': 'T: Clone', 'child_parents': 'p: P'}[nm]
+        it.attrs.insert(rng.randrange(len(it.attrs) + 1), Attr(nm, args, ded='Zzz'))
+        return it, r"Type 'Zzz' doesn't match any type specified in trait instructions\."
+
+    @add(4)
+    def unknown_counterpart_variant_instr(it, rng):
+        vs = [m for m in it.members if isinstance(m, Variant)]
+        if not vs:
+            return None
+        v = rng.choice(vs)
+        nm = rng.choice(['literal', 'pattern', 'type_hint'])
+        v.attrs.append(Attr(nm, {'literal': '1', 'pattern': '_', 'type_hint': 'as ()'}[nm], ded='Zzz'))
+        return it, r"Type 'Zzz' doesn't match any type specified in trait instructions\."
+
+    @add(5)
+    def duplicate_default_type_level(it, rng):
+        nm = rng.choice(['ghosts', 'where_clause', 'child_parents'] if it.kind == 'struct' else ['ghosts', 'where_clause'])
+        args = {'ghosts': 'gx: { 1 }' if it.kind == 'struct' else 'Gx: { E::V0 }', 'where_clause': 'T: Clone', 'child_parents': 'p: P'}[nm]
+        for _ in range(2):
+            it.attrs.insert(rng.randrange(len(it.attrs) + 1), Attr(nm, args))
+        return it, r'There can be at most one default #\[%s\(\.\.\.\)\] instruction\.' % nm
+
+    @add(5)
+    def duplicate_dedicated_type_level(it, rng):
+        nm = rng.choice(['ghosts', 'where_clause', 'child_parents'] if it.kind == 'struct' else ['ghosts', 'where_clause'])
+        args = {'ghosts': 'gx: { 1 }' if it.kind == 'struct' else 'Gx: { E::V0 }', 'where_clause': 'T: Clone', 'child_parents': 'p: P'}[nm]
+        cp = rng.choice(_trait_attrs(it)).cp
+        for _ in range(2):
+            it.attrs.insert(rng.randrange(len(it.attrs) + 1), Attr(nm, args, ded=cp))
+        return it, r'Dedicated #\[%s\(\.\.\.\)\] instruction for type .* is already defined\.' % nm
+
+    @add(5)
+    def duplicate_default_variant_instr(it, rng):
+        vs = [m for m in it.members if isinstance(m, Variant)]
+        if not vs:
+            return None
+        v = rng.choice(vs)
+        nm = rng.choice(['literal', 'pattern', 'type_hint'])
+        for _ in range(2):
+            v.attrs.append(Attr(nm, {'literal': '1', 'pattern': '_', 'type_hint': 'as ()'}[nm]))
+        return it, r'There can be at most one default #\[%s\(\.\.\.\)\] instruction for a given member\.' % nm
+
+    @add(5)
+    def duplicate_default_parent(it, rng):
+        fs = [m for m in it.members if isinstance(m, Field)]
+        if not fs or not _has_kind(it, NONFROM) or it.shape != 'named':
+            return None
+        f = rng.choice(fs)
+        f.attrs += [Attr('parent', 'x, y'), Attr('parent', 'u, v')]
+        return it, r'There can be at most one default #\[parent\(\.\.\.\)\] instruction for a given member\.'
+
+    @add(6)
+    def member_instr_on_type(it, rng):
+        nm = rng.choice(['parent', 'as_type', 'literal', 'pattern', 'repeat', 'skip_repeat', 'stop_repeat', 'type_hint'])
+        it.attrs.insert(rng.randrange(len(it.attrs) + 1), Attr(nm, {'as_type': 'i32', 'literal': '1', 'pattern': '_', 'type_hint': 'as ()'}.get(nm)))
+        if it.kind == 'enum' and nm in ('parent', 'as_type'):
+            return it, r"Member instruction '%s' is not applicable to enums\." % nm
+        return it, r"Member instruction '%s' should be used on a member\." % nm
+
+    @add(6)
+    def misnamed_on_type(it, rng):
+        nm, guess = rng.choice([('children', 'child_parents'), ('ghost', 'ghosts'), ('ghost_ref', 'ghosts_ref'), ('ghost_owned', 'ghosts_owned'), ('child', 'child_parents')])
+        it.attrs.insert(rng.randrange(len(it.attrs) + 1), Attr(nm, 'p: P' if nm in ('children', 'child') else '{ 1 }', o2o=(nm in ('ghost_ref', 'ghost_owned'))))
+        if it.kind == 'enum' and nm == 'child':
+            return it, r"Member instruction 'child' is not applicable to enums\."
+        return it, r"Perhaps you meant '%s'\?" % guess
+
+    @add(6)
+    def struct_instr_on_member(it, rng):
+        tag, m = rng.choice(list(_members(it)))
+        it.pos = tag
+        nm = rng.choice(['where_clause', 'children', 'child_parents'])
+        m.attrs.insert(rng.randrange(len(m.attrs) + 1), Attr(nm, 'T: Clone' if nm == 'where_clause' else 'p: P'))
+        if nm == 'where_clause':
+            return it, r"Struct instruction 'where_clause' should be used on a struct\."
+        if it.kind == 'enum' and nm == 'children':
+            return it, r"Struct instruction 'children' is not applicable to enums\."
+        return it, r"Perhaps you meant 'child'\?"
+
+    @add(6)
+    def unknown_in_o2o_list(it, rng):
+        if rng.random() < 0.5:
+            it.attrs.insert(rng.randrange(len(it.attrs) + 1), Attr('foo', 'x', o2o=True))
+            return it, r"Struct instruction 'foo' is not supported\."
+        tag, m = rng.choice(list(_members(it)))
+        it.pos = tag
+        m.attrs.insert(rng.randrange(len(m.attrs) + 1), Attr('foo', 'x', o2o=True))
+        return it, r"Member instruction 'foo' is not supported\."
+
+    @add(6)
+    def variant_instr_on_field(it, rng):
+        fs = [(t, m) for t, m in _members(it) if t in ('field', 'vfield')]
+        if not fs:
+            return None
+        it.pos, f = rng.choice(fs)
+        nm = rng.choice(['literal', 'pattern', 'type_hint', 'ghosts'])
+        f.attrs.append(Attr(nm, {'literal': '1', 'pattern': '_', 'type_hint': 'as ()', 'ghosts': 'gx: { 1 }'}[nm]))
+        return it, r'Instruction #\[%s\(\.\.\.\)\] is not supported for this member\.' % nm
+
+    @add(6)
+    def parent_on_variant(it, rng):
+        vs = [m for m in it.members if isinstance(m, Variant)]
+        if not vs:
+            return None
+        rng.choice(vs).attrs.append(Attr('parent', rng.choice([None, 'x, y'])))
+        return it, r'Instruction #\[parent\(\.\.\.\)\] is not supported for this member\.'
+
+    @add(6)
+    def permeate_on_struct_field(it, rng):
+        fs = [m for m in it.members if isinstance(m, Field)]
+        if not fs:
+            return None
+        rng.choice(fs).attrs.append(Attr('repeat', 'permeate()'))
+        return it, r'Permeating repeat instruction is only applicable to enum variant fields\.'
+
+    @add(7)
+    def ghost_without_default(it, rng):
+        fs = [m for m in it.members if isinstance(m, Field)]
+        if not fs or not _has_kind(it, FROMK):
+            return None
+        f = rng.choice(fs)
+        ded = rng.choice(_has_kind(it, FROMK)).cp if rng.random() < 0.4 else None
+        f.attrs.insert(rng.randrange(len(f.attrs) + 1), Attr('ghost', '' if ded else None, ded=ded))
+        return it, r"Member instruction #\[ghost\(\.\.\.\)\] for member '.*' should provide default value for type"
+
+    @add(8)
+    def child_without_child_parents(it, rng):
+        fs = [m for m in it.members if isinstance(m, Field)]
+        if not fs or not _has_kind(it, INTOK) or it.shape != 'named':
+            return None
+        rng.choice(fs).attrs.append(Attr('child', 'p'))
+        return it, r'Missing #\[child_parents\(\.\.\.\)\] instruction for'
+
+    @add(8)
+    def child_path_missing_in_child_parents(it, rng):
+        fs = [m for m in it.members if isinstance(m, Field)]
+        if not fs or not _has_kind(it, INTOK) or it.shape != 'named':
+            return None
+        rng.choice(fs).attrs.append(Attr('child', 'p.q'))
+        it.attrs.append(Attr('child_parents', 'p: P'))
+        return it, r"Missing 'p\.q: \[Type Path\]' instruction for type"
+
+    @add(9)
+    def tuple_to_named_without_names(it, rng):
+        if it.kind != 'struct' or it.shape != 'tuple':
+            return None
+        a = rng.choice(_trait_attrs(it))
+        if is_fallible(a.name):
+            a.args = a.cp + ' as {}, ' + (a.err or 'Er')
+        else:
+            a.args = a.cp + ' as {}'
+        a.hint = 'as {}'
+        return it, r'Member 0 should have member trait instruction with field name'
+
+    @add(9)
+    def tuple_variant_to_named_without_names(it, rng):
+        vs = [m for m in it.members if isinstance(m, Variant) and m.shape == 'tuple']
+        if not vs:
+            return None
+        rng.choice(vs).attrs.append(Attr('type_hint', 'as {}'))
+        return it, r'Member 0 of a variant V\d should have member trait instruction with field name'
+
+    @add(10)
+    def untyped_nested_parent(it, rng):
+        fs = [m for m in it.members if isinstance(m, Field)]
+        if not fs or not _has_kind(it, FROMK) or it.shape != 'named':
+            return None
+        f = rng.choice(fs)
+        f.attrs = [Attr('parent', rng.choice(['[parent(x)] inner', 'y, [parent([parent(v)] core: Core)] base', '[parent([parent(v)] core)] base: Base']))]
+        return it, r"Field '(inner|base|core)' should have type here, e\.g\. '(inner|base|core): SomeStruct'"
+
+    @add(10)
+    def unnamed_nested_member(it, rng):
+        fs = [m for m in it.members if isinstance(m, Field)]
+        if not fs or not _has_kind(it, NONFROM) or it.shape != 'named':
+            return None
+        f = rng.choice(fs)
+        f.attrs = [Attr('parent', rng.choice(['0', 'x, 1', '[parent(0)] t: T']))]
+        return it, r'Member \d should have an instruction that specifies corresponding field name of type'
+
+    @add(11)
+    def trait_repeat_not_terminated(it, rng):
+        a = rng.choice(_trait_attrs(it))
+        extra = 'repeat()'
+        def with_param(x, cp):
+            return trait_attr(x.name, cp, '', 'Er', extra)
+        it.attrs = [b for b in it.attrs if b is not a]
+        it.attrs += [with_param(a, a.cp), with_param(a, 'R2')]
+        return it, r"Previous repeat\(\) instruction must be terminated with 'stop_repeat'"
+
+    @add(11)
+    def trait_repeat_overrides(it, rng):
+        a = rng.choice(_trait_attrs(it))
+        it.attrs = [b for b in it.attrs if b is not a]
+        it.attrs += [trait_attr(a.name, a.cp, '', 'Er', 'repeat(), vars(k: { 1 })'), trait_attr(a.name, 'R2', '', 'Er', 'vars(j: { 2 })')]
+        return it, r"Vars will be overriden\. Did you forget to use 'skip_repeat'\?"
+
+    @add(11)
+    def parameter_set_twice(it, rng):
+        a = rng.choice(_trait_attrs(it))
+        p = rng.choice(['vars(k: { 1 }), vars(j: { 2 })', 'attribute(inline), attribute(cold)', 'skip_repeat, skip_repeat', 'repeat(), repeat()'])
+        it.attrs = [b for b in it.attrs if b is not a] + [trait_attr(a.name, a.cp, '', 'Er', p)]
+        return it, r"Instruction parameter '\w+' was already set\."
+
+    @add(11)
+    def unsupported_repeat_type(it, rng):
+        if rng.random() < 0.5:
+            a = rng.choice(_trait_attrs(it))
+            it.attrs = [b for b in it.attrs if b is not a] + [trait_attr(a.name, a.cp, '', 'Er', 'repeat(foo)')]
+        else:
+            tag, m = rng.choice(list(_members(it)))
+            it.pos = tag
+            m.attrs.append(Attr('repeat', 'foo'))
+        return it, r"#\[repeat\] of instruction type 'foo' is not supported\."
+
+    @add(11)
+    def member_repeat_not_terminated(it, rng):
+        groups = [[m for m in it.members if isinstance(m, Field)], [m for m in it.members if isinstance(m, Variant)]]
+        for m in it.members:
+            if isinstance(m, Variant) and len(m.fields) >= 2:
+                groups.append(m.fields)
+        groups = [g for g in groups if len(g) >= 2]
+        if not groups:
+            return None
+        g = rng.choice(groups)
+        i, j = sorted(rng.sample(range(len(g)), 2))
+        g[i].attrs.append(Attr('repeat'))
+        g[j].attrs.append(Attr('repeat'))
+        return it, r'Previous #\[repeat\] instruction must be terminated with #\[stop_repeat\]'
+
+    return inj
